@@ -2,6 +2,7 @@ package main
 
 import (
 	"fmt"
+	"os"
 	"sort"
 	"strings"
 	"sync"
@@ -138,10 +139,25 @@ func verifyFunc(p *Program, fn *ssa.Function, fc *FuncC, timeoutS int, filter fu
 	var wg sync.WaitGroup
 	for _, cs := range casesList {
 		cs := cs
+		if f := os.Getenv("GVC_CASE"); f != "" && !strings.Contains(cs.label, f) {
+			continue
+		}
 		wg.Add(1)
 		go func() {
 			defer wg.Done()
 			obls := e.obls
+			if f := os.Getenv("GVC_OBL"); f != "" {
+				var fl []*Obl
+				for _, o := range obls {
+					if strings.Contains(o.Name, f) {
+						fl = append(fl, o)
+					}
+				}
+				obls = fl
+				if filter == nil {
+					filter = func(*Obl) bool { return true }
+				}
+			}
 			if filter != nil {
 				var f []*Obl
 				for _, o := range obls {
@@ -156,16 +172,19 @@ func verifyFunc(p *Program, fn *ssa.Function, fc *FuncC, timeoutS int, filter fu
 			}
 			// batch: all selected obligations at once
 			var goal string
-			if filter == nil {
-				goal = fmt.Sprintf("(assert (not %s))\n", e.okCur)
-			} else {
+			{
 				var parts []string
+				if filter == nil {
+					parts = append(parts, e.okCur)
+				}
 				for _, o := range obls {
-					parts = append(parts, fmt.Sprintf("(=> %s %s)", o.okPre, o.obSym))
+					if filter != nil || o.terminal {
+						parts = append(parts, fmt.Sprintf("(=> %s %s)", o.okPre, o.obSym))
+					}
 				}
 				goal = fmt.Sprintf("(assert (not (and %s)))\n", strings.Join(parts, " "))
 			}
-			r := solve(prefix+cs.assert+goal+"(check-sat)\n", timeoutS, "")
+			r := solveStaged(prefix+cs.assert+goal+"(check-sat)\n", timeoutS)
 			if r.Result == "unsat" {
 				mu.Lock()
 				for _, o := range obls {
@@ -184,7 +203,7 @@ func verifyFunc(p *Program, fn *ssa.Function, fc *FuncC, timeoutS int, filter fu
 				go func() {
 					defer wg2.Done()
 					q := prefix + cs.assert + fmt.Sprintf("(assert %s)\n(assert (not %s))\n(check-sat)\n", o.okPre, o.obSym)
-					r := solve(q, timeoutS, "")
+					r := solveStaged(q, timeoutS)
 					n := cloneObl(o, cs.label)
 					n.Result, n.Solver, n.TimeS = r.Result, r.Solver, r.TimeS
 					if r.Result == "error" {
